@@ -413,3 +413,7 @@ INSTANCES.update({
                              MaxAtt=1, MaxLs=1, MaxCycles=0, probe_ctx=True, probe_spans=True),
                          prefix=True, prog={1: [S("root", tr=1, smp=True)]}), "terminal", {}),
 })
+
+# ... released by unwinding (seeded S88: LocalCollector::drop returns early while the thread is panicking)
+for _n in ["scope5", "scope_deep", "lcdrop_open", "scope_smp"]:
+    INSTANCES[_n] = (dict(INSTANCES[_n][0], unwind=True), INSTANCES[_n][1], INSTANCES[_n][2])
